@@ -114,8 +114,13 @@ func ConcretizeNum(n J, rep int) cty.Value {
 		if f == nil {
 			panic("unknown landmark " + asS(l))
 		}
-		// the same number at several mantissa precisions, where it is exactly representable
-		switch rep % 3 {
+		// the same WHOLE number at several mantissa precisions, where it is exactly representable
+		// (number equality is exact for whole numbers only)
+		r := rep % 3
+		if !f.IsInt() {
+			r = 0
+		}
+		switch r {
 		case 1:
 			g := new(big.Float).SetPrec(f.MinPrec() + 11).Set(f)
 			if g.Cmp(f) == 0 {
